@@ -11,3 +11,63 @@ def clause_only(f, **kw):
     """The clause name alone identifies the finding (the TLA+ monitor already evaluated
     the signature and encoded it in the clause name, e.g. ``..__sig_<name>``)."""
     return True
+
+
+def _reach(scn):
+    sids = [s["sid"] for s in scn["sims"]]
+    adj = {s: set() for s in sids}
+    for c in scn["conns"]:
+        adj[c["src"]].add(c["dst"])
+    reach = {s: set(adj[s]) for s in sids}
+    changed = True
+    while changed:
+        changed = False
+        for s in sids:
+            new = set().union(*[reach[x] for x in reach[s]]) if reach[s] else set()
+            if not new <= reach[s]:
+                reach[s] |= new
+                changed = True
+    return reach
+
+
+def lazy_group_reentry_deadlock(f, **kw):
+    """D21: deadlock that exists only with lazy_stepping=True, in a scenario where a data path
+    leaves a group that contains a weak connection and re-enters it (the lazy wait for the
+    re-entered member closes a wait cycle the cycle check does not know about)."""
+    import copy
+
+    from . import explore
+
+    case, res = f.case, f.result
+    if not case or not res:
+        return False
+    scn = case["scn"]
+    if res["outcome"]["r"] != "deadlock" or not scn.get("lazy", True):
+        return False
+    gp = {s["sid"]: tuple(s["gpath"]) for s in scn["sims"]}
+    reach = _reach(scn)
+    topo = False
+    for w in scn["conns"]:
+        if not w["weak"]:
+            continue
+        a, b = gp[w["src"]], gp[w["dst"]]
+        k = 0
+        while k < len(a) and k < len(b) and a[k] == b[k]:
+            k += 1
+        grp = a[:k]
+        if not grp:
+            continue
+        members = {s for s, g in gp.items() if g[:k] == grp}
+        for p in members:
+            for z in reach[p] - members:
+                if reach[z] & members:
+                    topo = True
+    if not topo:
+        return False
+    for pol in ({"kind": "fifo"}, dict(case.get("policy") or {})):
+        c2 = copy.deepcopy(case)
+        c2["scn"]["lazy"] = False
+        c2["policy"] = pol
+        if explore.run_case(c2)["outcome"]["r"] == "deadlock":
+            return False
+    return True
